@@ -369,10 +369,41 @@ def install(I):
     def m_reserve(I, st, f, args, fr):
         return I.ret(st, UNIT)
 
+    @M(r'^Vec::<.*>::split_off$', 'Vec::split_off(at) (concrete at; panics when at > len)')
+    def m_split_off(I, st, f, args, fr):
+        r = args[0]
+        v = coll_ref(I, st, r, ('Vec',), 'Vec')
+        at = int_of(I, st, args[1]).concrete()
+        if at is None:
+            raise Unmodelled('symbolic Vec::split_off')
+        if at > len(v.fields):
+            return panic(I, st, '`at` split index (is %d) should be <= len (is %d)' % (at, len(v.fields)))
+        I.write(st, r.cell, r.path, Agg('Vec', list(v.fields[:at])))
+        return I.ret(st, Agg('Vec', list(v.fields[at:])))
+
+    @M(r'^<Vec<(.*)> as TryInto<\[(.*); (\d+)\]>>::try_into$', 'Vec<T> -> [T; N] (Err gives the vector back)')
+    def m_vec_try_into(I, st, f, args, fr):
+        v = deref_val(I, st, args[0])
+        n = int(re.search(r'; (\d+)\]>>::try_into$', f).group(1))
+        if not is_coll(v, 'Vec'):
+            raise Unmodelled('try_into of %r' % (v,))
+        if len(v.fields) == n:
+            return I.ret(st, ok(Agg('[]', list(v.fields))))
+        return I.ret(st, err(v))
+
     @M(r'^core::slice::<impl \[.*\]>::copy_from_slice$', 'slice::copy_from_slice (panics on a length mismatch)')
     def m_copy_from_slice(I, st, f, args, fr):
         dst, src = args[0], deref_val(I, st, args[1])
         cur = I.read(st, dst.cell, dst.path)
+        if isinstance(cur, Agg) and cur.ty == 'SliceViewMut' and isinstance(src, Agg):
+            base, lo, hi = cur.fields
+            whole = I.read(st, base.cell, base.path)
+            if not is_coll(whole, 'Vec', '[]'):
+                raise Unmodelled('copy_from_slice through a view of %r' % (whole,))
+            if hi - lo != len(src.fields):
+                return panic(I, st, 'source slice length (%d) does not match destination slice length (%d)' % (len(src.fields), hi - lo))
+            I.write(st, base.cell, base.path, Agg(whole.ty, list(whole.fields[:lo]) + list(src.fields) + list(whole.fields[hi:])))
+            return I.ret(st, UNIT)
         if not (isinstance(cur, Agg) and isinstance(src, Agg)):
             raise Unmodelled('copy_from_slice of %r into %r' % (src, cur))
         if len(cur.fields) != len(src.fields):
@@ -485,9 +516,9 @@ def install(I):
 
     @M(r'^<(\[.*\]|Vec<.*>) as Index(Mut)?<(std::ops::|ops::)?Range(To|From|Full|Inclusive|ToInclusive)?(<usize>)?>>::index(_mut)?$', 'slice[a..b] with concrete bounds (copy of the sub-sequence)')
     def m_index_range(I, st, f, args, fr):
-        if f.endswith('index_mut') and not getattr(I, 'allow_slice_copy_mut', False):
-            # the result is a copy: writes through it would be lost. Only checks whose environment never writes into the slice may opt in.
-            raise Unmodelled('mutable sub-slice (view semantics not modelled): ' + f)
+        view = f.endswith('index_mut') and not getattr(I, 'allow_slice_copy_mut', False)
+        # (a mutable sub-slice is a *view*: unless the check opts into copy semantics because its environment never writes into the slice, the result is a
+        # SliceViewMut that only copy_from_slice knows how to write through; any other use of it is unmodelled)
         seq = deref_val(I, st, args[0])
         if not is_coll(seq, 'Vec', '[]'):
             raise Unmodelled('range index of %r' % (seq,))
@@ -524,6 +555,13 @@ def install(I):
             raise Unmodelled('range kind ' + kind)
         if lo > hi or hi > n:
             return panic(I, st, 'range end index %d out of range for slice of length %d' % (hi, n))
+        if view:
+            base = args[0]
+            while isinstance(base, Ref) and isinstance(I.read(st, base.cell, base.path), Ref):
+                base = I.read(st, base.cell, base.path)
+            if not isinstance(base, Ref):
+                raise Unmodelled('mutable sub-slice of %r' % (base,))
+            return I.ret(st, Ref(st.alloc(Agg('SliceViewMut', (base, lo, hi))), (), True))
         return I.ret(st, Ref(st.alloc(Agg('[]', seq.fields[lo:hi])), ()))
 
     @M(r'^core::slice::<impl \[.*\]>::get::<(std::ops::|core::ops::|ops::)?Range<usize>>$', 'slice::get(lo..hi), bounds split into their feasible values')
